@@ -32,7 +32,10 @@ type W struct {
 }
 
 var names = []string{"Alpha", "Beta", "Gamma", "Delta", "Eps", "Zeta"}
-var loadable = []string{"fx\\La", "fx\\Lb", "fx\\Lc"}
+// autoloadable fixture classes: directly under the registered namespace and in
+// (nested) sub-namespaces, whose tree nodes the class path manager creates
+// lazily on first resolution
+var loadable = []string{"fx\\La", "fx\\Lb", "fx\\Lc", "fx\\s1\\Da", "fx\\s2\\Db", "fx\\s1\\t\\Dc", "fx\\s3\\u\\Dd"}
 
 func gen(r *verifsim.Rng, tier string) (any, hx.Sched) {
 	w := &W{}
@@ -47,7 +50,8 @@ func gen(r *verifsim.Rng, tier string) (any, hx.Sched) {
 	}
 	pool := 1 + r.Intn(len(names)) // small pools collide more
 	kinds := []string{"addclass", "addclass", "addiface", "addfunc", "addfunc", "getclass", "getclass", "getiface", "getfunc", "loadpkg",
-		"setconst", "getconst", "global", "setfile", "getfile", "allclasses", "allfuncs", "getorload"}
+		"setconst", "getconst", "global", "setfile", "getfile", "allclasses", "allfuncs", "getorload", "getorload",
+		"getclass_ci", "getfunc_bs", "loadpkg_bs", "getconst_bs", "addns", "findfile"}
 	// swarm: disable a random subset of kinds
 	var enabled []string
 	for _, k := range kinds {
@@ -64,7 +68,7 @@ func gen(r *verifsim.Rng, tier string) (any, hx.Sched) {
 		for i := 0; i < n; i++ {
 			k := verifsim.Pick(r, enabled)
 			name := names[r.Intn(pool)]
-			if k == "getorload" {
+			if k == "getorload" || k == "findfile" {
 				name = verifsim.Pick(r, loadable)
 			}
 			if k == "allclasses" || k == "allfuncs" {
@@ -134,9 +138,14 @@ func fixture() string {
 	if err := os.MkdirAll(dir, 0o755); err != nil {
 		panic(err)
 	}
-	for _, n := range []string{"La", "Lb", "Lc"} {
-		src := fmt.Sprintf("<?php\nnamespace fx;\nclass %s {\n  public $v = 1;\n  public function name() { return \"%s\"; }\n}\n", n, n)
-		os.WriteFile(filepath.Join(dir, n+".php"), []byte(src), 0o644)
+	for _, full := range loadable {
+		parts := strings.Split(full, "\\")
+		n := parts[len(parts)-1]
+		sub := filepath.Join(parts[1 : len(parts)-1]...)
+		os.MkdirAll(filepath.Join(dir, sub), 0o755)
+		ns := strings.Join(parts[:len(parts)-1], "\\")
+		src := fmt.Sprintf("<?php\nnamespace %s;\nclass %s {\n  public $v = 1;\n  public function name() { return \"%s\"; }\n}\n", ns, n, n)
+		os.WriteFile(filepath.Join(dir, sub, n+".php"), []byte(src), 0o644)
 	}
 	fixtureDir = dir
 	return dir
@@ -210,6 +219,32 @@ func exec(t *testing.T, x any, s hx.Sched) *hx.Outcome {
 					case "getfunc":
 						f, ok := vm.GetFunc(op.N)
 						ret = found(f, ok)
+					case "getclass_ci": // case-insensitive fallback
+						c, ok := vm.GetClass(strings.ToLower(op.N))
+						ret = found(c, ok)
+					case "getfunc_bs": // leading-backslash path
+						f, ok := vm.GetFunc("\\" + op.N)
+						ret = found(f, ok)
+					case "loadpkg_bs":
+						v, ctl := vm.LoadPkg("\\" + op.N)
+						if ctl != nil {
+							ret = "notfound"
+						} else {
+							ret = found(v, v != nil)
+						}
+					case "getconst_bs":
+						v, ok := vm.GetConstant("\\" + op.N)
+						if ok {
+							ret = "found:" + v.AsString()
+						} else {
+							ret = "notfound"
+						}
+					case "addns": // registering a namespace while others resolve classes
+						vm.AddNamespace("ns"+op.N, fixture())
+						ret = "ok"
+					case "findfile":
+						_, ok := p.GetClassPathManager().FindClassFile(op.N)
+						ret = fmt.Sprint(ok)
 					case "loadpkg":
 						v, ctl := vm.LoadPkg(op.N)
 						if ctl != nil {
@@ -319,9 +354,23 @@ type in struct {
 	id   string // unique tag of the object being registered
 }
 
+func baseKind(k string) string {
+	switch k {
+	case "getclass_ci":
+		return "getclass"
+	case "getfunc_bs":
+		return "getfunc"
+	case "loadpkg_bs":
+		return "loadpkg"
+	case "getconst_bs":
+		return "getconst"
+	}
+	return k
+}
+
 func partitionKey(p hx.HOp) string {
 	name, _, _ := strings.Cut(p.Arg, "#")
-	switch p.Kind {
+	switch baseKind(p.Kind) {
 	case "addclass", "addiface", "getclass", "getiface", "loadpkg":
 		return "type:" + name
 	case "addfunc", "getfunc":
@@ -334,6 +383,8 @@ func partitionKey(p hx.HOp) string {
 		return "file:" + name
 	case "getorload":
 		return "load:" + name
+	case "findfile":
+		return "find:" + name
 	}
 	return ""
 }
@@ -392,6 +443,8 @@ var regModel = porcupine.Model{
 		case "getorload":
 			// the class file exists: under every sequential order the class is found
 			return strings.HasPrefix(out, "found:"), st
+		case "findfile":
+			return out == "true", st
 		}
 		return true, st
 	},
@@ -416,7 +469,7 @@ func evaluate(o *hx.Outcome, ops []hx.HOp) {
 				overlapSame++
 			}
 		}
-		parts[k] = append(parts[k], porcupine.Operation{ClientId: p.Task, Input: in{p.Kind, id}, Output: p.Ret, Call: p.Call, Return: p.Return})
+		parts[k] = append(parts[k], porcupine.Operation{ClientId: p.Task, Input: in{baseKind(p.Kind), id}, Output: p.Ret, Call: p.Call, Return: p.Return})
 	}
 	o.Probe("add_overlaps_op_on_same_name", int64(overlapSame))
 	for _, k := range keys {
